@@ -13,8 +13,9 @@ fn random_int(min: Value, max: Value) -> Resolved {
 }
 
 fn get_range(min: Value, max: Value) -> std::result::Result<Range<i64>, &'static str> {
-    let min = min.try_integer().expect("min must be an integer");
-    let max = max.try_integer().expect("max must be an integer");
+    // the arguments may only be typed at runtime: anything but an integer is an error
+    let min = min.try_integer().map_err(|_| "min must be an integer")?;
+    let max = max.try_integer().map_err(|_| "max must be an integer")?;
 
     if max <= min {
         return Err(INVALID_RANGE_ERR);
